@@ -757,15 +757,25 @@ class MeanFieldTempoBackend():
             propagators(current_step, current_field, current_field_derivative) \
                 for propagators, state in \
                     zip(self._propagators_list, current_state_list)]
-        # Use tempo tensor network to compute each system state
-        next_state_list = [
-            backend.compute_system_step(next_step, *prop_tuple) \
-                for backend, prop_tuple in \
-                    zip(self._backend_list, prop_tuple_list)]
-        # Use field evolution function to compute next field
-        next_field = self._compute_field(current_step,
-                                         current_state_list, current_field,
-                                         next_state_list)
+        # Keep the tensor networks of this step: if the (user supplied) field
+        # equation of motion fails below, the step must not be half taken
+        network_list = [(backend._mps.copy(), backend._mpo.copy()) \
+                for backend in self._backend_list]
+        try:
+            # Use tempo tensor network to compute each system state
+            next_state_list = [
+                backend.compute_system_step(next_step, *prop_tuple) \
+                    for backend, prop_tuple in \
+                        zip(self._backend_list, prop_tuple_list)]
+            # Use field evolution function to compute next field
+            next_field = self._compute_field(current_step,
+                                             current_state_list,
+                                             current_field,
+                                             next_state_list)
+        except BaseException:
+            for backend, (mps, mpo) in zip(self._backend_list, network_list):
+                backend._mps, backend._mpo = mps, mpo
+            raise
         self._state_list = next_state_list
         self._field = next_field
         self._step = next_step
